@@ -417,11 +417,13 @@ pub struct C03Cell {
     pub mt: u8,
     /// the failure happens right after this many events of the window
     pub at_event: u64,
+    /// offset between the members' start instants (0 = all in one tick)
+    pub phase: u64,
 }
 
 impl C03Cell {
     pub fn label(&self) -> String {
-        format!("n={} failing={:?} kind={} renewable={} mt={} after-event={}", self.n, self.failing, if self.leave { "leave" } else { "crash" }, self.renew, self.mt, self.at_event)
+        format!("n={} failing={:?} kind={} renewable={} mt={} after-event={} phase={}", self.n, self.failing, if self.leave { "leave" } else { "crash" }, self.renew, self.mt, self.at_event, self.phase)
     }
 }
 
@@ -433,7 +435,7 @@ pub fn run_c03(cell: &C03Cell, devs: &BTreeMap<usize, usize>) -> RunResult {
     o.record_received = cell.leave;
     let mut sim = Sim::new(n, o);
     let cfg = Cfg { max_tx: cell.mt, fanout: 3, ..base_cfg() };
-    if let Err(e) = form_cluster(&mut sim, n, &cfg, cell.renew, 17) {
+    if let Err(e) = form_cluster(&mut sim, n, &cfg, cell.renew, cell.phase) {
         res.violations.push(("machinery:formation".into(), e));
         return res;
     }
@@ -630,7 +632,13 @@ pub fn c03(tier: &str) -> Report {
                         while at < rot {
                             // deviation bound per cell
                             let d = if th { if n <= 3 { 2 } else { 1 } } else { 1 };
-                            cells.push((C03Cell { n, failing: failing.clone(), leave, renew, mt, at_event: at }, d));
+                            cells.push((C03Cell { n, failing: failing.clone(), leave, renew, mt, at_event: at, phase: 17 }, d));
+                            // other relative alignments of the members' probe loops
+                            if at % 3 == 0 && (th || n <= 3) {
+                                for phase in [0u64, 41] {
+                                    cells.push((C03Cell { n, failing: failing.clone(), leave, renew, mt, at_event: at, phase }, d.min(1)));
+                                }
+                            }
                             at += step;
                         }
                     }
@@ -674,11 +682,13 @@ pub struct C04Cell {
     /// 0 plain, 1 slow links (one latency > probe_rtt/2: relays appear),
     /// 2 periodic gossip, 3 a member joins inside the window (Feed)
     pub flavour: u8,
+    /// offset between the members' start instants during formation
+    pub phase: u64,
 }
 
 impl C04Cell {
     pub fn label(&self) -> String {
-        format!("n={} notify_down={} renewable={} fanout={} mt={} flavour={} lost-datagram#{}", self.n, self.notify_down, self.renew, self.fanout, self.mt, ["plain", "one-slow-ack", "join-with-periodic-gossip"][self.flavour as usize], self.drop)
+        format!("n={} notify_down={} renewable={} fanout={} mt={} flavour={} phase={} lost-datagram#{}", self.n, self.notify_down, self.renew, self.fanout, self.mt, ["plain", "one-slow-ack", "join-with-periodic-gossip"][self.flavour as usize], self.phase, self.drop)
     }
     fn cfg(&self) -> Cfg {
         Cfg { max_tx: self.mt, fanout: self.fanout, notify_down: self.notify_down, gossip: (self.flavour == 2).then_some((150, 1)), ..base_cfg() }
@@ -700,7 +710,7 @@ fn c04_prepare(cell: &C04Cell) -> Result<Sim, String> {
     let n = cell.n;
     let mut sim = Sim::new(n, opts(n, &cell.lat()));
     let cfg = cell.cfg();
-    form_cluster(&mut sim, cell.formed().max(1), &cfg, cell.renew, 17)?;
+    form_cluster(&mut sim, cell.formed().max(1), &cfg, cell.renew, cell.phase)?;
     if cell.flavour == 1 {
         // ONE slow (but delivered) Ack: 45 ticks > probe_rtt, < probe_period.
         // It starts an indirect probe cycle, which puts PingReq /
@@ -807,11 +817,19 @@ pub fn c04(tier: &str) -> Report {
                             if !th && ((fanout == 1) != (mt == 2) || (flavour >= 2 && (renew != notify_down))) {
                                 continue;
                             }
-                            let proto = C04Cell { n, notify_down, renew, fanout, mt, drop: 0, flavour };
-                            let total = c04_window_datagrams(&proto);
-                            for drop in 0..total {
-                                let d = if th { if n <= 3 { 2 } else { 1 } } else if n <= 3 { 1 } else { 0 };
-                                cells.push((C04Cell { drop, ..proto.clone() }, d));
+                            // formation phase: how the members' probe loops are
+                            // aligned relative to each other
+                            for phase in [17u64, 0, 41] {
+                                if phase != 17 && !(th || (n <= 3 && flavour == 0)) {
+                                    continue;
+                                }
+                                let proto = C04Cell { n, notify_down, renew, fanout, mt, drop: 0, flavour, phase };
+                                let total = c04_window_datagrams(&proto);
+                                for drop in 0..total {
+                                    let d = if th { if n <= 3 { 2 } else { 1 } } else if n <= 3 { 1 } else { 0 };
+                                    let d = if phase == 17 { d } else { d.min(1) };
+                                    cells.push((C04Cell { drop, ..proto.clone() }, d));
+                                }
                             }
                         }
                     }
